@@ -16,6 +16,7 @@ import CedarVerif.Driver.Ops.SymCC
 import CedarVerif.Driver.Ops.Level
 import CedarVerif.Driver.Ops.Tpe
 import CedarVerif.Driver.Ops.Manifest
+import CedarVerif.Driver.Ops.TypedAst
 /-
 Line-protocol driver: one request per line on stdin, one reply per line on stdout.
 Unknown or malformed requests answer `(bad-op)`; the driver never defaults.
@@ -42,7 +43,8 @@ def handlers : List (Sexp → Option String) := [
   Ops.SymCCOp.handleSymCC,
   Ops.Level.handleLevel,
   Ops.Tpe.handleTpe,
-  Ops.ManifestOps.handleManifest
+  Ops.ManifestOps.handleManifest,
+  Ops.TypedAst.handleTypedAst
 ]
 
 def handle (x : Sexp) : String :=
